@@ -14,7 +14,11 @@ from .terms import T, show, subterms
 from .sym import strip_sites
 
 # wrappers that do not change the denoted byte string
+_TRANSPARENT_ADTS = {"Cow"}
+
 _IDENT = {
+    "Cow::<'_, B>::into_owned",
+    "Cow::<'_, B>::to_mut",
     "AsRef::as_ref",
     "AsMut::as_mut",
     "Deref::deref",
@@ -73,6 +77,10 @@ def peel(t):
             continue
         if t.op == "cast" and str(t.a[0]).startswith("PointerCoercion"):
             t = t.a[1]
+            continue
+        if t.op == "agg" and t.a[0][0] == "adt" and t.a[0][1] in _TRANSPARENT_ADTS and len(t.a[1]) == 1:
+            # Cow::Borrowed(x) / Cow::Owned(x) / Box-like single-field wrappers denote the bytes of x
+            t = t.a[1][0]
             continue
         return t
 
